@@ -205,7 +205,7 @@ theorem createHeader_cpr {c : HdrCfg} {info : Extracted} {header h : Text} (hmer
     unfold guardOk at hg
     simp only [Bool.and_eq_true] at hg
     rcases hx with hx | hx
-    · exact (sameSet_iff.mp hg.1 x).mp hx
+    · exact (sameSet_iff.mp hg.2.1.1 x).mp hx
     · rw [mem_extractRaw_cpr (by decide), cprLines_blank [] (by decide)] at hx; cases hx
   · unfold createHeader at hok
     have he' : header.isEmpty = false := by cases header <;> simp_all
@@ -219,7 +219,7 @@ theorem createHeader_cpr {c : HdrCfg} {info : Extracted} {header h : Text} (hmer
       have hg := (createNewHeader_ok hok').2
       unfold guardOk at hg
       simp only [Bool.and_eq_true] at hg
-      exact (sameSet_iff.mp hg.1 x).mp (mem_unionTexts.mpr hx)
+      exact (sameSet_iff.mp hg.2.1.1 x).mp (mem_unionTexts.mpr hx)
     · simp only [hp, Bool.not_false, if_true] at hok
       cases hok
 
